@@ -138,7 +138,7 @@ def gen_edfa_el(rng, uid, libnames, imposable, span):
     return el
 
 
-def gen_fiber_el(rng, uid, short=False):
+def gen_fiber_el(rng, uid, short=False, vector_loss=False):
     length = rng.choice([rng.uniform(1, 40), rng.uniform(30, 90), rng.uniform(60, 135), rng.choice([20, 40, 50, 80, 100])])
     if short:
         length = rng.uniform(1, 45)
@@ -146,6 +146,13 @@ def gen_fiber_el(rng, uid, short=False):
         length = rng.uniform(150, 420)                   # gets split by add_missing_elements (C08)
     p = {'length': round(length, rng.choice([0, 1, 3])), 'length_units': 'km',
          'loss_coef': rng.choice([0.2, 0.2, 0.2, 0.19, 0.21, 0.22, 0.25, 0.26, 0.3, 0.185])}
+    if vector_loss and rng.random() < 0.15:
+        # loss coefficient given per frequency, samples on both sides of the usual Raman limits (selection only: the
+        # propagation oracle of C09 assumes frequency-flat fibres)
+        base = rng.choice([0.2, 0.22, 0.25, 0.3])
+        p['loss_coef'] = {'value': [round(base + d, 3) for d in rng.choice([(-0.015, 0.0, 0.012), (-0.02, -0.01, -0.002),
+                                                                             (0.004, 0.01, 0.02), (0.01, -0.004, -0.02)])],
+                          'frequency': [191.0e12, 193.5e12, 196.5e12]}
     for k in ('con_in', 'con_out'):
         r = rng.random()
         if r < 0.45:
@@ -159,7 +166,7 @@ def gen_fiber_el(rng, uid, short=False):
     return {'uid': uid, 'type': 'Fiber', 'type_variety': 'SSMF', 'params': p}
 
 
-def gen_line(rng, tag, libnames, imposable, span, from_roadm, to_roadm):
+def gen_line(rng, tag, libnames, imposable, span, from_roadm, to_roadm, vector_loss=False):
     """elements (JSON) of one direction of a link, in order, without the end nodes"""
     els = []
     k = [0]
@@ -178,15 +185,15 @@ def gen_line(rng, tag, libnames, imposable, span, from_roadm, to_roadm):
         shape = rng.random()
         short = rng.random() < 0.25
         if shape < 0.7:
-            els.append(gen_fiber_el(rng, uid('fiber'), short))
+            els.append(gen_fiber_el(rng, uid('fiber'), short, vector_loss))
         elif shape < 0.85:
-            els.append(gen_fiber_el(rng, uid('fiber'), short))
+            els.append(gen_fiber_el(rng, uid('fiber'), short, vector_loss))
             els.append({'uid': uid('fused'), 'type': 'Fused', 'params': {'loss': rng.choice([0.3, 0.5, 1, 1.5])}})
             if rng.random() < 0.3:
                 els.append({'uid': uid('fused'), 'type': 'Fused', 'params': {'loss': rng.choice([0.2, 1])}})
-            els.append(gen_fiber_el(rng, uid('fiber'), True))
+            els.append(gen_fiber_el(rng, uid('fiber'), True, vector_loss))
         else:
-            els.append(gen_fiber_el(rng, uid('fiber'), short))
+            els.append(gen_fiber_el(rng, uid('fiber'), short, vector_loss))
             els.append({'uid': uid('fused'), 'type': 'Fused', 'params': {'loss': rng.choice([0.3, 0.5, 1])}})
         last = s == nspans - 1
         if not last or to_roadm or rng.random() < 0.6:
@@ -229,7 +236,7 @@ def gen_case(rng, for_c10=False):
     lines = {}
     for (a, b) in sorted(edges):
         for (s, t) in ((a, b), (b, a)):
-            lines[(s, t)] = gen_line(rng, f'{s}{t}', libnames, imposable, span, True, True)
+            lines[(s, t)] = gen_line(rng, f'{s}{t}', libnames, imposable, span, True, True, for_c10)
     for x in names:
         rp = {}
         r = rng.random()
@@ -271,7 +278,7 @@ def gen_case(rng, for_c10=False):
         cx.append((prev, f'roadm {t}'))
     if nroadm == 0 or rng.random() < 0.25:               # point-to-point line between two transceivers
         for (s, t) in (('X', 'Y'), ('Y', 'X')):
-            l = gen_line(rng, f'{s}{t}', libnames, imposable, span, False, False)
+            l = gen_line(rng, f'{s}{t}', libnames, imposable, span, False, False, for_c10)
             prev = f'trx {s}'
             for e in l:
                 els.append(e)
@@ -610,22 +617,12 @@ def strip(c):
     return {k: v for k, v in c.items() if not k.startswith('_')}
 
 
-def is_padded_att_in(v):
-    """open finding C09/F-pad-att-in: the failing OMS contains a padded span whose first fibre had a user att_in > 0"""
-    return v.get('key') in ('budget_not_closed', 'dsl_not_span_loss') and bool(v.get('padded_user_att_in'))
-
-
-def is_voa_overshoot(v):
-    """open finding C09/F-voa-overshoot: automatic VOA rounded up beyond the head-room (voa_margin < step/2)"""
-    return v.get('key') in ('budget_not_closed', 'design_power_above_pmax') and bool(v.get('voa_overshoot'))
-
-
 def is_gain_mode_in_voa(v):
+    """open finding C09/F-gain-mode-in-voa: gain-mode saturation test of an imposed variety made before the input VOA"""
     return v.get('key') == 'user_gain_reduced_without_saturation' and bool(v.get('in_voa'))
 
 
-MATCHERS = {'F-pad-att-in': is_padded_att_in, 'F-voa-overshoot': is_voa_overshoot,
-            'F-gain-mode-in-voa': is_gain_mode_in_voa}
+MATCHERS = {'F-gain-mode-in-voa': is_gain_mode_in_voa}
 
 
 def run(ctx):
